@@ -23,6 +23,7 @@ func init() {
 	register("kf.C09-e.sysc", kfC09eSysc)
 	register("kf.C09-b.sysc", kfC09bSysc)
 	register("kf.C08-c", kfC08c)
+	register("kf.C09-g", kfC09g)
 }
 
 var syscMu sync.Mutex
@@ -277,6 +278,19 @@ func kfC08c(g *hx.Gen, id int) hx.Case {
 		{kind: 'O', path: p, status: st, hdr: [][2]string{{"Cache-Control", "max-age=5"}}, body: []byte("error-" + p), rerr: -1},
 		{kind: 'R', method: "GET", path: p}, {kind: 'R', method: "GET", path: p}}
 	return syscRun("kf.C08-c", id, 20, ops)
+}
+
+// C09-g witnesses: a stored lifetime that is NEGATIVE (max-age=-1 / s-maxage=-5: strconv.Atoi reads the sign, DoNotCache
+// only tests for zero) makes the entry due for revalidation at age 0; an origin that answers the revalidation 304
+// sends the handler back into itself, where the entry is due again ...
+func kfC09g(g *hx.Gen, id int) hx.Case {
+	syscMu.Lock()
+	defer syscMu.Unlock()
+	cc := []string{"max-age=-1", "s-maxage=-5", "max-age=60, s-maxage=-1"}[id%3]
+	p := "kf9g" + hx.I(id)
+	ops := []scOp{{kind: 'O', path: p, status: 200, cond: true, hdr: [][2]string{{"Cache-Control", cc}, {"ETag", "\"e1\""}}, body: []byte("body-" + p + "-v1"), rerr: -1},
+		{kind: 'R', method: "GET", path: p}, {kind: 'R', method: "GET", path: p}, {kind: 'T', dt: 3}, {kind: 'R', method: "GET", path: p}}
+	return syscRun("kf.C09-g", id, 0, ops)
 }
 
 func syscRun(stream string, id int, force int, ops []scOp) hx.Case {
